@@ -9,6 +9,13 @@ CHECKS = {
  "C02": dict(tech="property-based testing (proptest): differential against an independent f64 reference model of the EN ISO 52000-1 equations",
              text="Every numeric field of the EnergyPerformance value (per-step and annual flows, all weighted-energy terms per carrier / service / total, per-m2, RER) is compared with an independent f64 re-evaluation of equations (2),(9)-(14),(20)-(28),(32) on generated buildings x user/regulatory factor sets x k_exp x area x load matching; error parity is checked too. Exploration.",
              note="Trusts the reference model (written from the standard and the documented assumptions, no library logic shared) and the tolerance policy; reads the library's normalised component list as input (normalisation is C05/C06).", ref="4/C02"),
+
+ "C03": dict(tech="property-based testing (proptest): metamorphic relation over four evaluations at k_exp = 0, 1, k1, k2",
+             text="For generated buildings and factor sets every weighted field is checked to be affine in k_exp (w(k) = w(0) + k (w(1) - w(0))) at two interior points, B(0) = A per carrier / service / total / per m2, formula (20) per carrier, and every final-energy flow and step A quantity is checked to be independent of k_exp; buildings that export nothing must give the same result for all k. Exploration.",
+             note="Trusts generator soundness and the tolerance policy (two evaluations differ by HashMap summation order).", ref="4/C03"),
+ "C04": dict(tech="property-based testing (proptest): invariants (sums of breakdowns) plus a metamorphic area change",
+             text="Every total is compared with the sum of the per-carrier figures, every by-service / by-carrier / by-source map with its total (keys neither missing nor invented), per-m2 x area with the absolute figure for every field, and a second evaluation with another area must change only arearef and the per-m2 block. Exploration over generated buildings, factor sets, k_exp and areas from 0.001 to 1e6.",
+             note="Trusts generator soundness and the tolerance policy.", ref="4/C04"),
 }
 PENDING = {}
 TITLES = {}
